@@ -16,14 +16,14 @@ def reg(pid, technique, text, note, ref):
 reg("C18",
     "property-based testing: Hypothesis token streams + exhaustive insertion-order permutations vs. a sorted-permutation oracle and a permutation-invariance metamorphic relation",
     "Generated-input exploration: every Start/Empty tag's output attribute list must equal the input items sorted by (ns or '', local), "
-    "other tokens must be the same objects, and the result must not depend on the incoming order; all orders of 6-key colliding sets are enumerated. Serializer level: trees rendered by HTMLSerializer(alphabetical_attributes=True) together with the other filters and output encodings are read back by the reference lexer; every start tag's attribute names must be in order; streams of up to 5000 tokens. "
+    "other tokens must be the same objects, and the result must not depend on the incoming order; all orders of 6-key colliding sets are enumerated. Serializer level: trees rendered by HTMLSerializer(alphabetical_attributes=True) together with the other filters and output encodings are read back by the reference lexer; every start tag's attribute names must be in order; streams of up to 5000 tokens; foreign elements with adjusted and plain attributes of equal local names through both backends: written names per element == etree-parsed attributes sorted by (namespace, local name). "
     "Held on everything explored; not a proof.",
     "Trusts CPython's sorted()/dict ordering for the oracle; domain = namespaces None or any str incl. '' with at most one attribute per sort key (ties would make order-independence undecidable).",
     "DESIGN.md §3 C18")
 
 reg("C02",
     "differential testing vs. an independent reference WHATWG tokenizer: bounded-exhaustive enumeration over a 46-symbol class alphabet, state-reaching prefixes x all short suffixes, Hypothesis soup/random Unicode",
-    "Exploration with exhaustive sub-domains: all strings of <=3 alphabet symbols in 12 (start state, last start tag, CDATA) configurations, all of length 4 in the data state "
+    "Exploration with exhaustive sub-domains: all strings of <=3 alphabet symbols in 13 (start state, last start tag, CDATA allowed / not allowed / not allowed with namespacing off) configurations, all of length 4 in the data state "
     "(thorough: <=4 everywhere, 5 in data), ~290 state-reaching prefixes x all suffixes of <=2 (3) symbols, plus generated soup, references drawn from every name of the standard's table and every ';'-less stem that is not in it, a third of the generated cases delivered through a short-read text stream. Token lists must be equal to the reference's. "
     "Evidence reports reference (state, class) transition coverage. Held on everything explored.",
     "Trusted: vf/ref/tokenizer.py (own transcription of the June-2020 standard, html.entities.html5 as entity table). DOCTYPE name missing == '' (cannot be told apart).",
@@ -32,7 +32,7 @@ reg("C02",
 reg("C14",
     "exhaustive enumeration of the finite reference space against an independent oracle (html.entities.html5 + numeric rules from the standard) + encode/decode round trip over all code points",
     "Bounded-exhaustive: all 2231 names x 17 followers x 5 contexts through the tokenizer (and parseFragment), all special numeric values and overflow samples x 6 spellings x ';'/none x followers; "
-    "the plain numeric space 0..0x110000 (quick: seed-rotated 1/8 slice; thorough: all) batched ~400 per document; reverse direction: every non-surrogate code point entity-encoded under ascii (+ samples of 5 other codecs) and parsed back; every code point with a name in the table x 7 follower strings x text/attribute in every tier; every ';'-less stem that is not in the table (must stay literal); every entity name as a walker-format Entity token x resolve_entities x following text through the serializer. "
+    "the plain numeric space 0..0x110000 (quick: seed-rotated 1/8 slice; thorough: all) batched ~400 per document; reverse direction: every non-surrogate code point entity-encoded under ascii (+ samples of 5 other codecs) and parsed back; every code point with a name in the table x 7 follower strings x text/attribute in every tier; every ';'-less stem that is not in the table (must stay literal); references as content of pre/listing/textarea/table cells in both tree builders against the reference tree constructor; Unicode-only white space at text edges through tree -> walker -> serializer(strip_whitespace); every entity name as a walker-format Entity token x resolve_entities x following text through the serializer. "
     "Thorough tier is exhaustive over the stated domain.",
     "Trusted: html.entities.html5 as the standard's table; numeric rules written from the standard. Known findings: C1 controls cannot be expressed by any reference; CR is written raw.",
     "DESIGN.md §3 C14")
@@ -40,7 +40,7 @@ reg("C14",
 reg("C20",
     "exhaustive enumeration of all BMP code points in first/later name position + Hypothesis names/comments/public ids x all 64 flag sets, judged by expat and round-trip/injectivity checks",
     "Exhaustive on the BMP sub-domain (65536 code points x 2 positions x element/attribute): expat must accept the coerced name and report it unchanged, legal colon-free names must be returned as they are; "
-    "generated names (astral, U+hex look-alikes, one filter object reused) add fromXmlName(toXmlName(n)) == n (decoded by the same and by a new filter object, and by treebuilders/etree.py's tostring() for every enumerated name) and injectivity; comments/public ids over all flag sets. Held on everything explored.",
+    "generated names (astral, U+hex look-alikes, one filter object reused) add fromXmlName(toXmlName(n)) == n (decoded by the same and by a new filter object, and by treebuilders/etree.py's tostring() for every enumerated name) and injectivity; every BMP character through coercePubid; legal colon-free names under all 64 flag sets; comments/public ids over all flag sets. Held on everything explored.",
     "Trusted: expat as the XML parser of reference (XML 1.0 4th-edition names). Known finding: astral name characters are passed through.",
     "DESIGN.md §3 C20")
 
@@ -53,7 +53,7 @@ reg("C13",
 
 reg("C03",
     "fuzzing-style property-based testing: Hypothesis bytes/Unicode/markup soup + parameterised pathological depth/length families through every builder/namespacing/document-or-fragment/container/scripting combination; crash oracle + document-skeleton validity predicate",
-    "Exploration: no exception of any type may escape parse()/parseFragment(); documents must have the skeleton doctype?/comments/html(head, body|frameset). ~70 nesting units x prefixes x closers at N up to 3500 (thorough 20000) reach depth-related failures; lexical-length families (one reference / name / value / comment of up to 200000 characters) and many-distinct-names inputs reach limits of the host language and cache evictions; a watchdog (repeating timer) hands hangs to a dispatch-counting parse that proves tree-constructor livelocks deterministically (total count and 5000 dispatches without input consumption); other hangs are 'inconclusive'. Held on everything explored.",
+    "Exploration: no exception of any type may escape parse()/parseFragment(); documents must have the skeleton doctype?/comments/html(head, body|frameset). ~70 nesting units x prefixes x closers at N up to 3500 (thorough 20000) reach depth-related failures; three foreign/table tiny alphabets and a 3168-document grammar of foreign elements named like table-structure elements, every truncation of every <meta> spelling (byte input), lexical-length families (one reference / name / value / comment of up to 200000 characters) and many-distinct-names inputs reach limits of the host language and cache evictions; a watchdog (repeating timer) hands hangs to a dispatch-counting parse that proves tree-constructor livelocks deterministically (total count and 5000 dispatches without input consumption); other hangs are 'inconclusive'. Held on everything explored.",
     "Termination is decided for tree-constructor livelocks only. Known finding: the standard's own algorithm can put a reconstructed formatting element after frameset under html (classifier: the reference tree has the same anomaly).",
     "DESIGN.md §3 C03")
 
@@ -71,13 +71,13 @@ reg("C16",
 
 reg("C05",
     "metamorphic property-based testing: identical characters delivered through 6 source kinds x generated read-size schedules x internal chunk sizes x 15 encodings must reproduce the tree and (code, line, col) error list of the one-shot str parse",
-    "Exploration: generated CR/LF/surrogate/multibyte-rich markup under read schedules (file-like objects returning 1..9 characters or bytes per read), _defaultChunkSize 1..10240, and byte sources in 12 argument-declared encodings + 3 BOM kinds; sources also as genuine StringIO/BytesIO subclasses with short reads and as a StringIO whose prefix was consumed before; entry points HTMLParser.parse / html5lib.parse() / HTMLParser.parseFragment / html5lib.parseFragment(); evidence reports how many boundaries fell inside CRLF pairs, at surrogates, inside multi-byte sequences, tags and character references. Held on everything explored.",
+    "Exploration: generated CR/LF/surrogate/multibyte-rich markup under read schedules (file-like objects returning 1..9 characters or bytes per read), _defaultChunkSize 1..10240, and byte sources in 12 argument-declared encodings + 3 BOM kinds; sources also as genuine StringIO/BytesIO subclasses with short reads and as a StringIO whose prefix was consumed before; text sources that begin with U+FEFF; entry points HTMLParser.parse / html5lib.parse() / HTMLParser.parseFragment / html5lib.parseFragment(); evidence reports how many boundaries fell inside CRLF pairs, at surrogates, inside multi-byte sequences, tags and character references. Held on everything explored.",
     "Reference = parse of the same text as one str at the default chunk size. Known findings: chunk-dependent position/order of stream-level invalid-codepoint errors; BOM sniffing trusts read(4). Five input-stream defects found here were repaired in /repo.",
     "DESIGN.md §3 C05")
 
 reg("C11",
     "round-trip + differential property-based testing of the tree walkers: own stream validator, html5lib's Lint filter, own rebuild(stream) == direct traversal, etree-stream == dom-stream, over trees parsed from generated markup soup and several start nodes",
-    "Exploration: trees from soup (documents, fragments in 45 contexts, namespacing on/off) are walked by both walkers from the document, fragment, root element and an inner element; the stream must be well formed, accepted by Lint, rebuild to exactly the tree obtained by direct traversal, and be the same for both walkers after concatenating character tokens; a walker object walked again after an abandoned walk must give the same stream; treewalkers.concatenateCharacterTokens must agree with plain concatenation; long documents included. Held on everything explored.",
+    "Exploration: trees from soup (documents, fragments in 45 contexts, namespacing on/off) are walked by both walkers from the document, fragment, root element and an inner element; the stream must be well formed, accepted by Lint, rebuild to exactly the tree obtained by direct traversal, and be the same for both walkers after concatenating character tokens; a walker object walked again after an abandoned walk must give the same stream; treewalkers.concatenateCharacterTokens must agree with plain concatenation; long documents included; if the two backends hold different trees for a document this is a violation unless the exact model of the recorded minidom limitations explains it. Held on everything explored.",
     "Doctype name None == '' (cannot be told apart). Known finding: a void-listed element with children (event-source).",
     "DESIGN.md §3 C11")
 
@@ -96,7 +96,7 @@ reg("C01",
 
 reg("C07",
     "round-trip property-based testing: abstract trees generated from a grammar of the HTML content model -> html5lib tree -> HTMLSerializer under generated option records / walkers / output encodings -> re-parse; the re-parsed tree must equal the generated tree",
-    "Exploration: conforming documents (tables, lists, forms, select, ruby, pre/textarea, raw-text elements, SVG/MathML islands, comments, markup-significant and non-ASCII text and attribute values) x the cross product of 10 serializer options x 8 encodings x 2 walkers x {new serializer object, object used before with another encoding}; recorded serializer defects are accepted only when the re-parsed tree equals the exactly predicted wrong tree (expected-difference transformers). Held on everything explored.",
+    "Exploration: conforming documents (tables, lists, forms, select, ruby, pre/textarea, raw-text elements, SVG/MathML islands, comments, markup-significant and non-ASCII text and attribute values) x the cross product of 10 serializer options x 8 encodings x 2 walkers x {new serializer object, object used before with another encoding} x {walker object fresh / walked before} x namespaceHTMLElements on/off; recorded serializer defects are accepted only when the re-parsed tree equals the exactly predicted wrong tree (expected-difference transformers). Held on everything explored.",
     "The generator defines 'conforming' (content model encoded in vf/gen/conforming.py; doctype always present); trees that html5lib does not parse back from our explicit writer are excluded and counted. 6 recorded findings, 2 repaired defects.",
     "DESIGN.md §3 C07")
 
@@ -108,19 +108,19 @@ reg("C17",
 
 reg("C06",
     "model-based + round-trip property-based testing: byte documents from a prescan-oriented grammar x all subsets/values of the five *_encoding arguments; documentEncoding vs. a reference precedence chain + reference WHATWG prescan + late-<meta> model; tree vs. parse(decode(bytes, reported))",
-    "Exploration: generated byte documents (BOMs, declarations in every spelling and context, declarations within +-40 bytes of offset 1024, non-ASCII bodies) x argument subsets over valid/invalid/UTF-16 labels x bytes/BytesIO/non-seekable streams x {parse, parseFragment(div)}; declarations in the middle of table/select/formatting structure and CR-terminated chunks (state that must not survive the restart); padding targets 1024 and 10240. Three oracles: a certain source is never overridden; the tree equals the tree of the bytes decoded with the reported encoding; the reported encoding equals the reference prediction. Held on everything explored.",
+    "Exploration: generated byte documents (BOMs, declarations in every spelling and context, declarations within +-40 bytes of offset 1024, non-ASCII bodies) x argument subsets over valid/invalid/UTF-16 labels and look-alikes that only Unicode case mapping or white-space stripping would accept x bytes/BytesIO/non-seekable streams x {parse, parseFragment(div)}; declarations in the middle of table/select/formatting structure and CR-terminated chunks (state that must not survive the restart); padding targets 1024 and 10240. Three oracles: a certain source is never overridden; the tree equals the tree of the bytes decoded with the reported encoding; the reported encoding equals the reference prediction. Held on everything explored.",
     "Trusted: webencodings for labels; vf/ref/prescan.py (own transcription of the WHATWG prescan) and the reference tree constructor for the late-meta path. chardet absent. Known findings: html5lib's prescan variant (modelled separately), truncated multi-byte sequence at EOF. Three defects repaired.",
     "DESIGN.md §3 C06")
 
 reg("C09",
     "property-based testing with an independent allow-list predicate (URL-standard scheme parsing, data: MIME essence, CSS declaration split) over attack-vocabulary markup, default and randomly restricted allow-lists",
-    "Exploration: obfuscated URL schemes (case, embedded TAB/LF/CR, leading controls, character references, prefixes), data: URLs with MIME variants, style attributes (properties, shorthand keywords, url( spellings, escapes, comments), SVG/MathML, namespaced attributes, comments, unknown elements - (tags with several URI attributes, values a URL parser rejects, long documents) through parse, walk and the sanitizer filter with the default lists or seed-derived subsets of all ten constructor arguments; every output token is judged by the predicate, plus non-invention/inert-text checks. Held on everything explored.",
+    "Exploration: obfuscated URL schemes (case, embedded TAB/LF/CR, leading controls, character references, prefixes), data: URLs with MIME variants, style attributes (properties, shorthand keywords, url( spellings, escapes, comments), SVG/MathML, namespaced attributes, comments, unknown elements - (tags with several URI attributes, values a URL parser rejects, long documents, trees built with namespaceHTMLElements on and off) through parse, walk and the sanitizer filter with the default lists or seed-derived subsets of all ten constructor arguments; every output token is judged by the predicate, plus non-invention/inert-text checks. Held on everything explored.",
     "Attribute values are judged as stored in the tree; numbers/units/colours in CSS values are not constrained. One defect (KeyError with restricted protocols) repaired.",
     "DESIGN.md §3 C09")
 
 reg("C10",
     "round-trip property-based testing for mutation XSS: generated mXSS-shaped markup -> parse -> serialize(sanitize=True) under generated options -> re-parse as document/fragment (20 contexts, scripting on/off) -> allow-list predicate on the re-parsed tree + element-origin check",
-    "Exploration: raw-text/RCDATA elements with markup-looking text, attribute values carrying terminators, foreign content and integration points, table/select/formatting misnesting, noscript, comments, CDATA, combined with the C09 attack vocabulary; serializer options incl. quoting modes, omission, escape flags, whitespace stripping, output encoding and inject_meta_charset; doctype identifiers and control characters before on* names in attribute values are part of the vocabulary. The re-parsed tree must contain no comment, only allow-listed elements/attributes that correspond to let-through tags, and URI/style values that satisfy the C09 predicate. Held on everything explored.",
+    "Exploration: raw-text/RCDATA elements with markup-looking text, attribute values carrying terminators, foreign content and integration points, table/select/formatting misnesting, noscript, comments, CDATA, combined with the C09 attack vocabulary; serializer options incl. quoting modes, omission, escape flags, whitespace stripping, output encoding and inject_meta_charset; doctype identifiers, control characters before on* names, integration points with omitted end tags and RCDATA break-outs in attribute values are part of the vocabulary; first parse with namespaceHTMLElements on/off, re-parse on a new parser or on the first parse's parser object. Every violating record is classified on its own. The re-parsed tree must contain no comment, only allow-listed elements/attributes that correspond to let-through tags, and URI/style values that satisfy the C09 predicate. Held on everything explored.",
     "Default allow-lists (the serializer's sanitize option offers no others). Two known findings stem from the serializer dropping namespaces (element and attribute namespace shift), each with an exact classifier.",
     "DESIGN.md §3 C10")
 
@@ -138,7 +138,7 @@ reg("C15",
 
 reg("C12",
     "model-based stateful testing (Hypothesis RuleBasedStateMachine) of object reuse: generated histories of parse / parseFragment / strict-mode aborts / faulting input sources / serialize on shared objects and read-level thread schedules of independent parsers, compared step by step with brand-new objects and, for a sample, with a fresh interpreter",
-    "Exploration: histories of <= 8 (thorough 12) steps over shared HTMLParser(etree), HTMLParser(etree root-element form), HTMLParser(dom), HTMLParser(strict) and four HTMLSerializer objects; documents include error-free ones over the stateful spots and such documents cut open plus one offending token, so strict aborts happen at varied error sites; aborts by ParseError at the first error and by IOError injected after k reads; 'threads' steps run 2-3 shared parsers - or 2-3 concurrent calls of the module-level html5lib.parse() with equal configurations - concurrently with sources gated so that the harness releases one read at a time along a generated schedule. After every step the result must equal that of brand-new objects; a sample of calls is re-computed in one freshly forked interpreter state per call (process-wide caches) and a larger batch in one fresh interpreter. Held on everything explored.",
+    "Exploration: histories of <= 8 (thorough 12) steps over shared HTMLParser(etree), HTMLParser(etree root-element form), HTMLParser(dom), HTMLParser(strict) and four HTMLSerializer objects; documents include error-free ones over the stateful spots and such documents cut open plus one offending token, so strict aborts happen at varied error sites; aborts by ParseError at the first error and by IOError injected after k reads; 'threads' steps run 2-3 shared parsers - or 2-3 concurrent calls of the module-level html5lib.parse() with equal configurations - concurrently (the harness grants ONE read at a time and waits for the worker to ask for the next, so the generated schedule is the interleaving); a rule parses bytes under encoding labels and their look-alikes one after the other; a rule keeps all threads inside character references with sources gated so that the harness releases one read at a time along a generated schedule. After every step the result must equal that of brand-new objects; a sample of calls is re-computed in one freshly forked interpreter state per call (process-wide caches) and a larger batch in one fresh interpreter. Held on everything explored.",
     "Thread interleavings are owned at read() granularity only; preemptive races inside a token are out of reach. One defect (phase-object state leaking after an aborted parse) repaired.",
     "DESIGN.md §3 C12")
 
